@@ -11,4 +11,5 @@ export CARGO_NET_OFFLINE=true
 (cd harness && RUSTFLAGS="--cfg rngs_verif --check-cfg cfg(rngs_verif)" cargo build --offline --profile release)
 (cd harness && RUSTFLAGS="--cfg rngs_verif --check-cfg cfg(rngs_verif)" CARGO_TARGET_DIR="$(pwd)/target-noserde" cargo build --offline --profile release --no-default-features)
 python3 tools/exttie.py /repo | head -3
+python3 tools/audit_extra.py
 echo setup-ok
